@@ -1,10 +1,10 @@
 """C16 — shipped models and initialisers match their documented closed form (DESIGN.md §5 C16)."""
-import math
+import math, os
 import numpy as np
 from vlib import caseio, gen
 
 ID = "C16"
-COQ_TARGETS = ["C16_Extract.vo", "C16_Proofs.vo"]
+COQ_TARGETS = ["C16_Extract.vo", "C16_ProofsSM.vo", "C16_Proofs.vo", "C16_Regress.vo"]
 EXTRACTED = "C16_model"
 DRIVER = "drv_C16.ml"
 HARNESS = "h_C16.cpp"
@@ -12,11 +12,14 @@ HARNESS = "h_C16.cpp"
 VARIANTS = {"quick": ["assert"], "thorough": ["assert", "asan"]}
 MODEL_NEEDS_IMPL = True      # the mirrored standard-normal draws and the observed LDLT factors are inputs of the model
 AXIOMS_ALLOWED = []          # MathComp / lists only: closed under the global context
-REQUIRED_THEOREMS = ["C16_F_closed_form", "C16_Q_closed_form", "C16_Q_spd", "C16_noise_dim", "C16_noise_cov", "C16_motion",
-                     "C16_transition_density", "C16_lti_state_ctor_validation", "C16_lti_meas_ctor_validation",
-                     "C16_selector_matrix", "C16_selector_rejects_out_of_range", "C16_sensor_freeze", "C16_trajectory",
-                     "C16_serving", "C16_grid_refusal", "C16_grid_positions", "C16_grid_weights"]
-RULE = ("cases drawn from one seeded stream; kinds: wna (Dim in {1,2,3}, T in [0.03,10], q in [0.01,100], seed, a script of 3-7 calls "
+REQUIRED_THEOREMS = ["C16_state_dimension", "C16_F_closed_form", "C16_Q_closed_form", "C16_Q_block_minors", "C16_Q_spd", "C16_Q_invertible",
+                     "C16_noise_dim", "C16_noise_cov", "C16_motion", "C16_transition_density", "C16_trajectory_wna",
+                     "C16_lti_state_ctor_validation", "C16_lti_meas_ctor_validation", "C16_selector_ctor_validation",
+                     "C16_selector_matrix", "C16_selector_rejects_out_of_range", "C16_sensor_freeze", "C16_sensor_serving",
+                     "C16_sensor_draws", "C16_trajectory", "C16_trajectory_recurrence", "C16_serving_state", "C16_serving",
+                     "C16_reset_restarts", "C16_call_output", "C16_zero_length_has_no_state",
+                     "C16_grid_refusal", "C16_grid_positions", "C16_grid_spans", "C16_grid_weights", "C16_grid_overwrites"]
+RULE = ("corpus props/C16_corpus/*.case first, then cases drawn from one seeded stream; kinds: wna (Dim in {1,2,3}, T in [0.03,10], q in [0.01,100], seed, a script of 3-7 calls "
         "among getNoiseSample(1..5), motion (1..4 columns), getTransitionProbability (1..6 pairs)); lti_state / lti_meas (all shape "
         "classes: 0 x k, k x 0, non-square, mismatched, valid); linmodel (state size 0..6, 0..6 indices incl. out-of-range and repeated, "
         "R valid / empty / non-square / mismatched); sim (trajectory length 1..50, call sequences with calls past the end and resets); "
@@ -37,7 +40,6 @@ ASSUMPTIONS = ["RNG: the draws of std::normal_distribution<double>(0,1) over std
                "Q proved SPD for T, q > 0; checked at run time on every case on the factor observed on the implementation)",
                "Eigen inverse()/determinant() behave as matrix inverse/determinant up to rounding (Gaussian density)",
                "WhiteNoiseAcceleration is used without an exogenous model and not skipping (the skip branches of LinearStateModel::propagate are C13's)",
-               "SimulatedStateModel is constructed with simulation_time >= 1 (simulation_time = 0 writes column 0 of an empty matrix)",
                "InitSurveillanceAreaGrid::initialize is applied to a particle set with 4 state rows"]
 
 COUNTS = {"quick": {"wna": 90, "lti_state": 60, "lti_meas": 50, "linmodel": 70, "sim": 40, "sensor": 40, "grid": 50},
@@ -111,17 +113,47 @@ def _dims(rng):
     return [n if rng.random() < 0.75 else rng.randint(0, 5) for _ in range(4)]
 
 
+def _other(rng, n, lo=1, hi=6):
+    return rng.choice([k for k in range(lo, hi + 1) if k != n])
+
+
+def _shape_class(rng, square_first):
+    """(r1, c1, r2, c2) aimed at one branch of the constructor's if / else-if chain; the first matrix is
+    square in the valid class iff square_first"""
+    n = rng.randint(1, 5)
+    c1 = n if square_first else rng.randint(1, 6)
+    cls = rng.choice(["valid", "valid", "first_empty", "second_empty", "first_nonsquare", "second_nonsquare",
+                      "second_smaller", "second_larger", "random", "random"])
+    if cls == "valid":
+        return n, c1, n, n
+    if cls == "first_empty":
+        r, c = rng.choice([(0, c1), (n, 0), (0, 0)])
+        return (r, c) + tuple(rng.choice([(n, n), (0, n), (n, n + 1), (n + 1, n + 1)]))
+    if cls == "second_empty":
+        r, c = rng.choice([(0, n), (n, 0), (0, 0)])
+        return (n, c1 if rng.random() < 0.7 else _other(rng, n)) + (r, c)
+    if cls == "first_nonsquare":
+        return (n, _other(rng, n)) + tuple(rng.choice([(n, n), (n, n + 1), (n + 1, n + 1)]))
+    if cls == "second_nonsquare":
+        return (n, c1) + tuple(rng.choice([(n, _other(rng, n)), (_other(rng, n), n)]))
+    if cls == "second_smaller":
+        k = rng.randint(1, n - 1) if n > 1 else 2
+        return n, c1, k, k
+    if cls == "second_larger":
+        k = n + rng.randint(1, 2)
+        return n, c1, k, k
+    return tuple(_dims(rng))
+
+
 def gen_lti_state(rng, k):
-    fr, fc, qr, qc = _dims(rng)
+    fr, fc, qr, qc = _shape_class(rng, True)
     c = caseio.Case(k, "lti_state", {"fr": fr, "fc": fc, "qr": qr, "qc": qc})
     c.mat_shape("F", fr, fc, gen.matrix(rng, fr, fc)).mat_shape("Q", qr, qc, gen.matrix(rng, qr, qc))
     return c
 
 
 def gen_lti_meas(rng, k):
-    hr, hc, rr, rc = _dims(rng)
-    if rng.random() < 0.5:
-        hc = rng.randint(0, 6)           # the measurement matrix need not be square
+    hr, hc, rr, rc = _shape_class(rng, False)
     c = caseio.Case(k, "lti_meas", {"hr": hr, "hc": hc, "rr": rr, "rc": rc})
     c.mat_shape("H", hr, hc, gen.matrix(rng, hr, hc)).mat_shape("R", rr, rc, gen.matrix(rng, rr, rc))
     return c
@@ -144,12 +176,22 @@ def _indices(rng, n, valid):
 
 
 def _noise_cov(rng, m, valid):
-    if valid or rng.random() < 0.7:
+    if valid or rng.random() < 0.65:
         if m == 0:
             return np.zeros((0, 0)), 0, 0
         R, _ = gen.spd(rng, m, 10 ** rng.uniform(0, 3))
         return R, m, m
-    rr, rc = rng.randint(0, 5), rng.randint(0, 5)
+    cls = rng.choice(["smaller", "larger", "nonsquare", "empty", "random"])
+    if cls == "smaller" and m > 1:
+        rr = rc = rng.randint(1, m - 1)
+    elif cls == "larger" or cls == "smaller":
+        rr = rc = m + rng.randint(1, 2)
+    elif cls == "nonsquare":
+        rr, rc = rng.choice([(m, m + 1), (m + 1, m), (max(m, 1), max(m, 1) + 2)])
+    elif cls == "empty":
+        rr, rc = rng.choice([(0, m), (m, 0), (0, 0)])
+    else:
+        rr, rc = rng.randint(0, 5), rng.randint(0, 5)
     if rr == rc and rr > 0:
         R, _ = gen.spd(rng, rr, 10 ** rng.uniform(0, 3))
         return R, rr, rc
@@ -209,12 +251,40 @@ def gen_grid(rng, k):
     return c
 
 
+ZERO_LENGTH_SIG = "C16:trajectory-zero-length:ctor-writes-outside-target"
+CORPUS_DIR = os.path.join(os.path.dirname(os.path.abspath(__file__)), "C16_corpus")
+
+
+def corpus_cases():
+    """hand-picked boundary cases and past failures (props/C16_corpus/*.case), run first on every run"""
+    out = []
+    if os.path.isdir(CORPUS_DIR):
+        for fn in sorted(os.listdir(CORPUS_DIR)):
+            if fn.endswith(".case"):
+                for c in caseio.read_cases(os.path.join(CORPUS_DIR, fn)):
+                    c.id = "corpus-%s-%s" % (fn[:-5], c.id)
+                    out.append(c)
+    return out
+
+
+def zero_length_case(rng, cid, sensor):
+    """simulation_time = 0: the constructor must throw (commit 56b3d39); before it, it wrote column 0 of an empty matrix"""
+    c = gen_sim(rng, cid, sensor)
+    c.ops = [("int", "len", 0) if n == "len" else (t, n, v) for t, n, v in c.ops]
+    c.meta["len"] = 0
+    return c
+
+
 def generate(rng, tier):
     makers = {"wna": gen_wna, "lti_state": gen_lti_state, "lti_meas": gen_lti_meas, "linmodel": gen_linmodel,
               "sim": gen_sim, "sensor": lambda r, i: gen_sim(r, i, True), "grid": gen_grid}
     kinds = [kind for kind, n in COUNTS[tier].items() for _ in range(n)]
     rng.shuffle(kinds)           # interleaved, so that any prefix of the list covers every kind
-    return [makers[kind](rng, k) for k, kind in enumerate(kinds)]
+    cases = [makers[kind](rng, k) for k, kind in enumerate(kinds)]
+    for sensor in (False, True):                      # the rejected boundary input, always
+        for _ in range(2 if tier == "quick" else 30):
+            cases.append(zero_length_case(rng, len(cases), sensor))
+    return corpus_cases() + cases
 
 
 # ---------------------------------------------------------------- classification helpers
@@ -425,9 +495,10 @@ def oracle_ctor(c, impl, model):
     want = expected_outcome(c)
     got = impl.get("result")
     got = got[0] if got else None
-    if got != want:
+    if (got == "ok") != (want == "ok"):
         v.append(("C16:ctor-validation:%s:%s" % (c.kind, want), "constructor outcome %s, the documented checks give %s (shapes %s)" % (got, want, c.meta)))
         return v
+    # which of several applicable checks fires first is compared by the correspondence check only
     if want == "ok":
         pairs = [("F", "F"), ("Q", "Q"), ("J", "F")] if c.kind == "lti_state" else [("H", "H"), ("R", "R")]
         for out, inp in pairs:
@@ -453,10 +524,10 @@ def oracle_linmodel(c, impl, model):
     want, bad = linmodel_outcome(c)
     got = impl.get("result"); got = got[0] if got else None
     n, idxs = c.get("n"), [int(s) for s in c.get("idxs")]
-    if got != want:
+    if (got == "ok") != (want == "ok"):
         v.append(("C16:selector-validation:%s" % want, "LinearModel({%d, %s}, R %sx%s): outcome %s, documented %s" % (n, idxs, c.meta["rr"], c.meta["rc"], got, want)))
         return v
-    if want == "Index":
+    if want == "Index" and got == "Index":
         if impl.get("err_value") != bad[1] or impl.get("err_bound") != n:
             v.append(("C16:selector-validation:Index-report", "reported index %s bound %s, first out-of-range index is %s (position %d), bound %d" % (impl.get("err_value"), impl.get("err_bound"), bad[1], bad[0], n)))
     if want != "ok":
@@ -498,6 +569,14 @@ def _trajectory(c, impl, L):
 def oracle_sim(c, impl, model):
     v = []
     dn = DIMNAME[c.get("dim")]
+    ctor = impl.get("ctor"); ctor = ctor[0] if ctor else None
+    if c.get("len") == 0:
+        if ctor != "throws_empty":
+            v.append((ZERO_LENGTH_SIG, "simulation_time = 0: constructor outcome %s, it must throw ERROR::SIMULATEDSTATEMODEL::CTOR" % ctor))
+        return v
+    if ctor != "ok":
+        v.append(("C16:trajectory-ctor-rejects-valid-length", "simulation_time = %d: constructor outcome %s" % (c.get("len"), ctor)))
+        return v
     F, Q, L = _wna_common(c, impl, v, "sim")
     if L is None:
         return v
@@ -617,12 +696,19 @@ def on_crash(c, info, model):
     entry = m.group(1) if m else "unknown"
     dn = DIMNAME.get(c.get("dim")) if c.has("dim") else None
     detail = "%s inside %s: %s" % (info["kind"], entry, info.get("stderr", "")[-300:].replace("\n", " "))
+    se = info.get("stderr", "")
+    product = "Product.h" in se or "invalid matrix product" in se or "CwiseBinaryOp.h" in se
+    block = "Block.h" in se or "DenseCoeffsBase.h" in se or "MapBase.h" in se
+    if entry == "SimulatedStateModel::SimulatedStateModel" and c.has("len") and c.get("len") == 0:
+        return [(ZERO_LENGTH_SIG, "simulation_time = 0: " + detail)]
     if entry in ("WhiteNoiseAcceleration::getNoiseSample", "WhiteNoiseAcceleration::motion", "SimulatedStateModel::SimulatedStateModel"):
         return [("C16:noise-sample-rows:Dim=%s" % dn, detail)]
-    if entry == "LinearModel::getNoiseSample" or (entry == "SimulatedLinearSensor::freeze" and "bufferData" not in detail and "col" not in info.get("stderr", "")[-600:]):
+    if entry == "LinearModel::getNoiseSample" or (entry == "SimulatedLinearSensor::freeze" and product):
         return [("C16:sensor-noise-sample-rows:m=%s" % c.meta.get("m"), detail)]
-    if entry in ("SimulatedStateModel::bufferData", "SimulatedLinearSensor::freeze"):
+    if entry in ("SimulatedStateModel::bufferData", "SimulatedLinearSensor::freeze") and (block or info.get("kind") == "asan"):
         return [("C16:trajectory-read-past-end", detail)]
+    if entry in ("LinearModel::LinearModel", "SimulatedLinearSensor::SimulatedLinearSensor") and block:
+        return [("C16:selector-validation:Index-accepted", detail)]
     if entry == "WhiteNoiseAcceleration::getTransitionProbability":
         return [("C16:transition-density-shape:Dim=%s" % dn, detail)]
     return None
